@@ -118,3 +118,32 @@ func smtBVToBig(lit string) (*big.Int, bool) {
 	}
 	return nil, false
 }
+
+// parseObserved extracts the values printed by (get-value ...) after the OBSERVE marker.
+func parseObserved(out string, names [][2]string) map[string]string {
+	m := map[string]string{}
+	i := strings.LastIndex(out, "OBSERVE")
+	if i < 0 {
+		return m
+	}
+	rest := out[i+len("OBSERVE"):]
+	j := strings.Index(rest, "(")
+	if j < 0 {
+		return m
+	}
+	rest = strings.TrimSpace(rest[j:])
+	if len(rest) < 2 {
+		return m
+	}
+	pairs := splitSexp(rest[1 : len(rest)-1])
+	for k, p := range pairs {
+		if k >= len(names) || len(p) < 2 {
+			break
+		}
+		parts := splitSexp(p[1 : len(p)-1])
+		if len(parts) >= 2 {
+			m[names[k][0]] = parts[len(parts)-1]
+		}
+	}
+	return m
+}
